@@ -35,7 +35,8 @@ func (c20) Meta() fw.Meta {
 			"oracle (library read at that instant + the harness' byte parser): header == request; without fill every physical slot is all-zero; with fill every slot of every archive's window (now-ret, now] is non-NaN with 0 <= v <= max*step_i/step_0, and every coarser slot whose ratio finer intervals all lie in the finer archive's window equals their sum (exact integers); existing destination => exit != 0 and bytes unchanged. " +
 			"non-trivial = filled file with >= 2 archives in which at least one fully covered and one partially covered coarser slot were checked; distinct by (layout, instant, max)." +
 			" Also: generate with stdout (text output) on /dev/full - exit 0 only with a complete file; odd cases create from a list used before at another length." +
-			" Existing destinations also include all-zero placeholders and an empty file; every 32nd case starts a second generate for a destination the first is still writing.",
+			" Existing destinations also include all-zero placeholders and an empty file; every 32nd case starts a second generate for a destination the first is still writing." +
+			" The file's aggregation method cycles through all six (the sum relation between archives is generate's own).",
 		Assumptions: []string{
 			"generate's random values are non-negative integers, so sums are exact",
 			"CLI instants are wall-clock (phase steered by waiting); all other phases come from the function-level driver",
